@@ -695,6 +695,13 @@ func (s *Server) Invoke(responseWriter http.ResponseWriter, invoke *interop.Invo
 						s.setCachedInitErrorResponse(&interop.ErrorInvokeResponse{Headers: headers, FunctionError: fnError, Payload: []byte{}})
 					}
 
+					if err == ErrInitResetReceived {
+						// The reset that interrupted init is this invocation's own timeout: it tears the
+						// environment down itself and the caller is answered with the timeout. Shutting down
+						// or invoking from here would only hit the environment of a later invocation.
+						return
+					}
+
 					// Init failed, so we explicitly shutdown runtime (cleanup unused extensions).
 					// Because following fast invoke will start new (supressed) Init phase without reset call
 					s.Shutdown(&interop.Shutdown{DeadlineNs: metering.Monotime() + int64(resetDefaultTimeoutMs*1000*1000)})
